@@ -43,3 +43,14 @@ def match(known: list[dict], rec: dict) -> dict | None:
         if ok:
             return k
     return None
+
+
+def first_unknown(known: list[dict], violations: list[dict], config: dict) -> tuple[dict | None, list[str]]:
+    """The first violation of a run that no known finding covers, plus the ids of the known ones met."""
+    hits = []
+    for v in violations:
+        k = match(known, {"violation": v, "config": config, "history": ""})
+        if k is None:
+            return v, hits
+        hits.append(k["id"])
+    return None, hits
